@@ -33,6 +33,7 @@ func checkC15(c *Ctx, r *Report) {
 	c15ReceiveBounds(c, r, "C15.R5.receive-bounds")
 	secretFromProvider(c, r, "C15.R4.secret-from-provider", "a Transfer configured with one secret for a key name accepts envelopes signed with the secret another provider had for that name, and refuses correctly keyed ones")
 	borrow(c, r, c11R6, "C11.R6.strip", "C15.R3.strip", 3, "stripTsig cuts the message where the TSIG record starts", nil, "signer and verifier disagree about the signed octets as soon as an OPT precedes the TSIG: a valid signed transfer whose query carries EDNS fails")
+	everyEnvelopeDelivered(c, r, "C15.R1.every-envelope-delivered")
 }
 
 // backEdges: edges u->h where h dominates u.
